@@ -7,6 +7,14 @@
 package c19
 
 import (
+	wasmtypes "github.com/CosmWasm/wasmd/x/wasm/types"
+	codectypes "github.com/cosmos/cosmos-sdk/codec/types"
+	sdkconsensustypes "github.com/cosmos/cosmos-sdk/x/consensus/types"
+	distrtypes "github.com/cosmos/cosmos-sdk/x/distribution/types"
+	govv1 "github.com/cosmos/cosmos-sdk/x/gov/types/v1"
+	slashingtypes "github.com/cosmos/cosmos-sdk/x/slashing/types"
+	stakingtypes "github.com/cosmos/cosmos-sdk/x/staking/types"
+
 	"context"
 	"fmt"
 	"math"
@@ -50,7 +58,55 @@ type variant struct {
 	ctxPrio int64
 }
 
+// foreignLookalikes: every message type registered with the application whose type URL is NOT in
+// Paloma's namespace but contains the segment of one of the four special modules (e.g. the Cosmos
+// SDK x/consensus parameter message). By the statement they are ordinary ("other") transactions.
+func foreignLookalikes() []variant {
+	var out []variant
+	// message types of the foreign modules the application wires in (app.go), registered the way their modules do
+	reg := codectypes.NewInterfaceRegistry()
+	sdk.RegisterInterfaces(reg)
+	sdkconsensustypes.RegisterInterfaces(reg)
+	banktypes.RegisterInterfaces(reg)
+	stakingtypes.RegisterInterfaces(reg)
+	govv1.RegisterInterfaces(reg)
+	distrtypes.RegisterInterfaces(reg)
+	slashingtypes.RegisterInterfaces(reg)
+	wasmtypes.RegisterInterfaces(reg)
+	urls := reg.ListImplementations(sdk.MsgInterfaceProtoName)
+	sort.Strings(urls)
+	for _, u := range urls {
+		if strings.HasPrefix(u, "/palomachain.paloma.") {
+			continue
+		}
+		hit := false
+		for _, seg := range []string{".consensus.", ".scheduler.", ".evm.", ".valset."} {
+			if strings.Contains(u, seg) {
+				hit = true
+			}
+		}
+		if !hit {
+			continue
+		}
+		m, err := reg.Resolve(u)
+		if err != nil {
+			continue
+		}
+		msg, ok := m.(sdk.Msg)
+		if !ok {
+			continue
+		}
+		out = append(out, variant{"other/foreign-lookalike:" + u, clsOther, func(string) []sdk.Msg { return []sdk.Msg{msg} }, 42})
+	}
+	return out
+}
+
 func variants() []variant {
+	vs := baseVariants()
+	return append(vs, foreignLookalikes()...)
+}
+
+func baseVariants() []variant {
 	send := func(a string) sdk.Msg {
 		return &banktypes.MsgSend{FromAddress: a, ToAddress: a, Amount: sdk.NewCoins(sdk.NewInt64Coin("ugrain", 1))}
 	}
